@@ -53,10 +53,8 @@ def check_object(x, where):
     for name, wv in want.items():
         gv = getattr(x, name)
         if cplx:
-            if name == 'precision':
-                ok = complex(gv) == complex(float(M.pow2(-f)), float(M.pow2(-f)))
-            else:
-                ok = complex(gv) == complex(float(wv), float(wv))
+            # a complex object reports its limits either as the real number or as that number in both components
+            ok = complex(gv) == complex(float(wv), float(wv)) or complex(gv) == complex(float(wv), 0.0)
         else:
             ok = float(gv) == float(wv)
         if not ok:
@@ -133,6 +131,11 @@ class World:
             z = F(val, fmt[0], n_int=max(fmt[1] - fmt[2] - int(fmt[0]), 0), n_frac=max(fmt[2], 0), **kw)
         elif how == 'Q':
             z = F(val, fmt[0], fmt[1], fmt[2], dtype_notation='Q', **kw)
+        elif how == 'complex':
+            cv = val * (1 + 1j) if fmt[1] <= 40 else val
+            z = F(cv, fmt[0], fmt[1], fmt[2], **kw)
+        elif how == 'scaled':
+            z = F(val, fmt[0], fmt[1], fmt[2], scale=2, bias=0.5, **kw) if fmt[1] <= 30 else F(val, fmt[0], fmt[1], fmt[2], **kw)
         else:
             t = self.pick(op['i'])
             if t is None:
@@ -466,7 +469,7 @@ def op_strategies():
     shape = st.sampled_from([0, 0, 1, 3, 4, [2, 2], [2, 3]])
     ops = {
         'construct': st.fixed_dictionaries({'fmt': st.one_of(fmt, small_fmt), 'modes': C.st_modes().map(list), 'rel': REL, 'shape': shape,
-                                            'how': st.sampled_from(['sized', 'sized', 'dtype', 'inferred', 'n_int', 'Q', 'like']), 'i': IDX}),
+                                            'how': st.sampled_from(['sized', 'sized', 'dtype', 'inferred', 'n_int', 'Q', 'like', 'complex', 'scaled']), 'i': IDX}),
         'write': st.fixed_dictionaries({'i': IDX, 'route': st.sampled_from(['call', 'set_val', 'equal', 'setitem']), 'rel': REL, 'idx': IDX}),
         'write_int': st.fixed_dictionaries({'i': IDX, 'route': st.sampled_from(['call', 'set_val']),
                                             'v': st.one_of(st.integers(-(1 << 70), 1 << 70), st.integers(-(1 << 1000), 1 << 1000),
